@@ -16,18 +16,21 @@ THEOREMS = {
                             "accum_is_foldl", "accum_is_foldl_fresh", "collect_fires", "val_stepTxn_collect", "collect_state_is_foldl", "collect_output", "cell_next_value"]],
     "C05": [S + n for n in ["switchs_fires", "switchs_ignores_selector_update", "switchc_fires_on_switch", "switchc_value", "lift_inv_switchc"]],
     "C06": [G + "collect_sound_total", G + "client_never_loses_a_held_object", G + "GcInv.bounded", G + "collect_sound",
-            "SodiumVerif.GcScript.script_sound", G + "collectCycles_terminates", G + "collect_frees_only_garbage"],
+            "SodiumVerif.GcScript.script_sound", G + "collectCycles_terminates", G + "collect_frees_only_garbage",
+            "SodiumVerif.Struct.run_reachable", "SodiumVerif.Struct.struct_sound", "SodiumVerif.Struct.struct_held_not_freed", "SodiumVerif.Struct.struct_counts_exact"],
     "C07": [G + n for n in ["collect_complete_total", "collect_exact", "drop_all_frees_all", "collect_leaves_no_candidate", "collect_complete", "bufinv_init",
                             "bufinv_newNode", "bufinv_incRef", "bufinv_decRef_handle", "bufinv_addEdge", "bufinv_delEdge", "bufinv_upgradeDrop", "bufinv_collectCycles",
                             "onePass_frees_garbage", "collectCycles_terminates", "onePass_progress", "collect_dtor_once"]]
-           + ["SodiumVerif.GcScript." + n for n in ["script_complete", "handles_exact", "no_garbage_after_collect", "drop_all_collect_frees_all"]],
+           + ["SodiumVerif.GcScript." + n for n in ["script_complete", "handles_exact", "no_garbage_after_collect", "drop_all_collect_frees_all"]]
+           + ["SodiumVerif.Struct." + n for n in ["run_reachable", "struct_gc_complete", "leakcheck_frees_all", "leakcheck_count_zero", "struct_oof"]],
     "C09": [S + "fireTable_unique", S + "fire_rename'", S + "fireOf_rename'", S + "val_rename'", S + "val_run_rename'", S + "fireTrace_rename'", S + "WellRanked.rename'",
             S + "solution_extends", S + "fireTable_least", S + "gc_transparent", "SodiumVerif.Sched.transaction_result_unique", "SodiumVerif.Sched.sched_result_unique",
             G + "collect_sound_total"],
     "C10": [S + n for n in ["listenerOutputs_eq", "unlisten_stops", "unlisten_deactivates", "listen_stream", "listen_cell_initial", "listen_cell_later",
                             "strong_listener_survives_drop", "stmt_unlisten"]],
     "C11": [S + n for n in ["fire_substLoop", "fireTrace_substLoop", "val_run_substLoop", "stepTxn_substLoop", "fire_substCLoop", "fireTrace_substCLoop_wf",
-                            "val_run_substCLoop_wf", "sloop_fires", "cloop_fires'", "sloop_unclosed_silent", "cloop_value", "double_loop_panics", "sample_before_loop_panics", "stmt_sloopclose", "stmt_sample"]],
+                            "val_run_substCLoop_wf", "sloop_fires", "cloop_fires'", "sloop_unclosed_silent", "cloop_value", "double_loop_panics", "sample_before_loop_panics", "stmt_sloopclose", "stmt_sample",
+                            "holdz_fires", "holdz_resolves", "holdz_updated", "holdz_sticky", "holdz_unresolved", "holdz_pending"]],
     "C12": [T + n for n in ["log_of_close", "log_of_close_flat", "prePost_before_post", "commit_before_deferred", "commit_precedes_deferred", "deferred_own_transaction",
                             "deferred_fifo", "post_immediate_when_idle", "phases_match", "hold_commit_queue", "once_detach_queue", "send_clear_queue", "defer_queue",
                             "public_post_opens_transaction"]],
@@ -45,11 +48,11 @@ MODULES = {
     "C02": ["SodiumVerif.Props.C02", "SodiumVerif.Props.C03", "SodiumVerif.Props.Refine", "SodiumVerif.Props.RefineHist"],
     "C04": ["SodiumVerif.Props.C04", "SodiumVerif.Props.C13"],
     "C05": ["SodiumVerif.Props.C05"],
-    "C06": ["SodiumVerif.Props.C06"],
-    "C07": ["SodiumVerif.Props.C07", "SodiumVerif.Props.C06"],
+    "C06": ["SodiumVerif.Props.C06", "SodiumVerif.Props.StructMem"],
+    "C07": ["SodiumVerif.Props.C07", "SodiumVerif.Props.C06", "SodiumVerif.Props.StructMem"],
     "C09": ["SodiumVerif.Props.C09", "SodiumVerif.Props.C09b", "SodiumVerif.Props.C06"],
     "C10": ["SodiumVerif.Props.C10"],
-    "C11": ["SodiumVerif.Props.C11", "SodiumVerif.Props.C11b"],
+    "C11": ["SodiumVerif.Props.C11", "SodiumVerif.Props.C11b", "SodiumVerif.Props.C11c"],
     "C12": ["SodiumVerif.Props.C12"],
     "C13": ["SodiumVerif.Props.C13"],
     "C14": ["SodiumVerif.Props.C14"],
